@@ -88,6 +88,13 @@ CHECKS = {
         "Trusted: the arithmetic coordinate reference shared with C14; lengths (4,), (3,4), (2,3,4).",
         "DESIGN.md section 4, C15",
     ),
+    "C16": (
+        "exploration",
+        "bounded-exhaustive enumeration of source/target grid pairs (all layout pairs, grid classes, locations) and ALL masks of small grids through the real RegridNearest/RegridLinear adapters on a link; brute-force nearest-neighbour and convex-hull/affine-field reference",
+        "Nearest: every unmasked target must carry the value of a Euclidean-nearest unmasked source (any on ties), masked targets stay masked, poison values under the source mask must never appear; identity between layouts. Linear (unstructured / masked sources): affine fields reproduced inside the hull of the unmasked sources, weights in [0,1] and zero on masked sources (unit vectors), outside masked or nearest-filled.",
+        "Trusted: brute-force reference; scipy Delaunay for hull membership (targets within 1e-7 of the boundary excluded); data_points order verified by C14. Grids with <=18 data locations; the structured unmasked linear path is outside the statement.",
+        "DESIGN.md section 4, C16",
+    ),
     "C17": (
         "exploration",
         "bounded-exhaustive enumeration of all ordered unit pairs of a 71-unit hand-written catalogue under three memo regimes plus all query sequences of length <=3 over a sub-catalogue, against a reference table that does not use pint",
